@@ -313,13 +313,21 @@ def fam_manager(rng, pid, count, fills=(False,), has=(False,), lifes=(None,), he
         if not tf and life is not None and sc["obj"] in ("ind", "hex") and not ha and rng.random() < 0.3:
             # arrival-time stamps: about one candle a second with a jitter of quarter seconds, a lifespan that
             # is not a whole number of seconds either (the window is exact to the stamp, not to the second)
-            sc["sub"] = 4
-            t_, st2 = 0.0, []
-            for (_ts, *rest) in sc["stream"]:
-                st2.append((t_,) + tuple(rest))
-                t_ += rng.choice([0.75, 1.0, 1.0, 1.25, 1.5, 2.0])
+            if rng.random() < 0.5:
+                sc["sub"] = 4
+                t_, st2 = 0.0, []
+                for (_ts, *rest) in sc["stream"]:
+                    st2.append((t_,) + tuple(rest))
+                    t_ += rng.choice([0.75, 1.0, 1.0, 1.25, 1.5, 2.0])
+                lf = timedelta(seconds=rng.choice([2.25, 3.5, 4.75, 6.0, 7.25]))
+            else:
+                # 100 ms bars (not a binary fraction of a second) and a lifespan that is a whole number of bars:
+                # after every append one candle sits exactly on the cut-off and must be kept
+                sc["sub"] = 10
+                step_ = rng.choice([1, 2, 3])
+                st2 = [(round(i * step_ / 10, 1),) + tuple(rest) for i, (_ts, *rest) in enumerate(sc["stream"])]
+                lf = timedelta(milliseconds=100 * step_ * rng.choice([3, 4, 6]))
             sc["stream"] = st2
-            lf = timedelta(seconds=rng.choice([2.25, 3.5, 4.75, 6.0, 7.25]))
             if sc["obj"] == "hex":
                 sc["hex"] = dict(sc["hex"], lifespan=lf)
             else:
@@ -768,9 +776,14 @@ def fam_maintenance(rng, pid, count, wrappers=False):
                     am.timeframe = tf_of()
                     cfgs = _uniq(cfgs + [am])
             late = _uniq(cfgs + [rand_cfg(rng, rng.choice(NESTED + SIMPLE), tf=tf_of())])[len(cfgs):]
+            quiet_ha = t % 5 == 2 and not ladder
             sc = {"id": f"{pid}/hex/{'+'.join(c.kind for c in cfgs)}/{t}", "fam": "maint", "obj": "hex",
-                  "inds": cfgs, "late": late, "hex": {},
-                  "stream": make_stream(rng, n, "mixed", tf=tf, regular=(tf_regular(rng, tf) if ladder else None)),
+                  "inds": cfgs, "late": late,
+                  # (every fifth: a Heikin-Ashi Hexital on a timeframe of its own, fed ticks that trade nothing)
+                  "hex": ({"ctype": "HA", "timeframe": tf or "T1"} if quiet_ha else {}),
+                  "stream": make_stream(rng, n + (8 if quiet_ha else 0), "repeat" if quiet_ha else "mixed",
+                                        tf=(tf or "T1") if quiet_ha else tf,
+                                        regular=(tf_regular(rng, tf or "T1") if (ladder or quiet_ha) else None)),
                   "twins": ["final_batch"], "member_forms": ["obj"] * len(cfgs),
                   "clause_props": {"exc": [pid], "batch": [pid], "value": [pid]}}
             ops = MAINT_OPS + (["calculate_index"] * 5 if wrappers else [])
@@ -1009,6 +1022,9 @@ def fam_reads(rng, pid, count, forms=("candle",), touches=True):
         if hexobj and rng.random() < 0.5:
             # a third member: on its own timeframe, or sharing the second member's (one manager for both)
             cfgs.append(rand_cfg(rng, "SMA", tf=(tf if tf and rng.random() < 0.5 else pick_tf(rng))))
+            if rng.random() < 0.4:
+                # member-level flags a Hexital does not act on (it fills gaps per Hexital, not per member)
+                cfgs[-1].extra = dict(cfgs[-1].extra, timeframe_fill=True)
         if rng.random() < 0.3:
             # labels the user chooses may contain a dot; the stored name must stay one key
             lab = rng.choice([{"name_suffix": "v1.5"}, {"fullname_override": "my.fast"}, {"name_suffix": "a.b"}])
@@ -1607,6 +1623,11 @@ def fam_patterns(rng, pid, count):
             else:
                 maker = uneven_case if t % 2 == 0 else pattern_case
                 prices, at = maker(rng, name, witness=rng.random() < 0.5)
+            if rng.random() < 0.3 and at >= 11:
+                # an illiquid stretch: most of the ten candles in front of the candidate did not move at all
+                # (open = high = low = close); they count in the averages like any other candle
+                flat_at = rng.sample(range(at - 10, at - 1), rng.randint(5, 8))
+                prices = [((p_[3],) * 4 + (0,)) if i in flat_at else p_ for i, p_ in enumerate(prices)]
             if rng.random() < 0.5:
                 # very wide (or very quiet) candles right after the candidate: the averages a threshold is
                 # taken from jump between the candidate and the later candles whose lookback still covers it
